@@ -1,6 +1,9 @@
 import CircBuf.Lemmas.Tie.DrainTie
 import CircBuf.Props.C09
 import CircBuf.Props.C10
+import CircBuf.Props.C01
+import CircBuf.Props.C05
+import CircBuf.Props.C20
 /-!
 # C09 / C10 — the draining iterator: the theorems of `Props/C09.lean` about creating and stepping a drain, and the leak-safety theorem of `Props/C10.lean`, restated about the *translated source*
 
@@ -8,10 +11,18 @@ import CircBuf.Props.C10
 `/repo/src/drain.rs` it takes `Drain::over_range`, `Drain::read`, `Iterator::next`,
 `DoubleEndedIterator::next_back` and `ExactSizeIterator::len` (`Gen.Drain_*`).  Each theorem below is the
 property theorem of the same name (without `_src`) with the hand-written model function replaced by
-the translated definition, carried over along the ties of `Lemmas/Tie/DrainTie.lean`.  (`Drop for
-Drain` — and with it `C09_drop` — stays on the hand-written model: its loop is outside T3's subset.)
+the translated definition, carried over along the ties of `Lemmas/Tie/DrainTie.lean`.  `Drop for Drain` is translated too: its `while` loop becomes a recursive definition on a fuel argument
+(`Gen.Drain_drop_loop`), tied to the model's `backfillLoop` for every amount of fuel by induction.
 -/
 namespace CircBuf
+
+theorem DrainInv.re_le_cap {b0 : CB} {d : Drain} {s : Sys} (hd : DrainInv b0 d s) : d.re ≤ s.buf.cap := by
+  have h1 := hd.h4; have h2 := hd.bs; have h3 := hd.inv0.size_le
+  have h4 : s.buf.cap = b0.cap := by rw [hd.buf_eq]
+  omega
+theorem DrainInv.rs_le_cap {b0 : CB} {d : Drain} {s : Sys} (hd : DrainInv b0 d s) : d.rs ≤ s.buf.cap := by
+  have := hd.re_le_cap; have := hd.h1; have := hd.h2; have := hd.h3
+  omega
 
 maybe theorem C09_new_src (sb eb : Bound) (s : Sys) (h : Inv s.buf) (hsb : sb.val < W)
     (heb : eb.val < W) (he : eb.endNat s.buf.size ≤ s.buf.size)
@@ -38,6 +49,47 @@ maybe theorem C09_next_back_src (b0 : CB) (d : Drain) (s : Sys) (hd : DrainInv b
 maybe theorem C09_len_src (b0 : CB) (d : Drain) (s : Sys) (hd : DrainInv b0 d s) :
     Gen.Drain_len d s = (.ok (((abs b0).drop d.is).take (d.ie - d.is)).length, s) := by
   rw [tie_drain_len, C09_len b0 d s hd]
+
+maybe /-- what `Drop for Drain` destroys and `Debug for Drain` prints: the two slices of the translated
+`as_mut_slices` / `as_slices` designate exactly the slots of the elements not yet yielded, in order -/
+theorem C09_as_mut_slices_src (b0 : CB) (d : Drain) (s : Sys) (hd : DrainInv b0 d s) :
+    ∃ r l, Gen.Drain_as_mut_slices d s = (.ok (r, l), s) ∧
+      r.slots ++ l.slots = windowSlots (phys b0.start b0.cap d.is) b0.cap (d.ie - d.is) := by
+  rw [tie_drain_as_mut_slices d s (C10_forget_safe b0 d s hd).1]; exact Drain.asSlices_spec b0 d s hd
+
+maybe theorem C09_as_slices_src (b0 : CB) (d : Drain) (s : Sys) (hd : DrainInv b0 d s) :
+    ∃ r l, Gen.Drain_as_slices d s = (.ok (r, l), s) ∧
+      r.slots ++ l.slots = windowSlots (phys b0.start b0.cap d.is) b0.cap (d.ie - d.is) := by
+  rw [tie_drain_as_slices d s (C10_forget_safe b0 d s hd).1]; exact Drain.asSlices_spec b0 d s hd
+
+maybe /-- **dropping the drain, on the translated `Drop for Drain`** (the explicit drops of the two guards,
+`CircularSlicePtr`, the back-fill loop as a recursive definition on its fuel — `tie_drain_drop_loop` ties it
+to the model's loop for every amount of fuel by induction) -/
+theorem C09_drop_src (b0 : CB) (d : Drain) (s : Sys) (hd : DrainInv b0 d s) (hf : s.faults.drop = 0) :
+    ∃ b', Gen.Drain_drop d s = (.ok (), { s with
+        buf := b'
+        log := dropEvents s.kind (((abs b0).drop d.is).take (d.ie - d.is)) ++ s.log }) ∧
+      Inv b' ∧ abs b' = (abs b0).take d.rs ++ (abs b0).drop d.re ∧ b'.cap = b0.cap ∧
+      b'.start = b0.start ∧
+      (∀ i, i < d.rs → b'.items (phys b0.start b0.cap i) = b0.items (phys b0.start b0.cap i)) := by
+  rw [tie_drain_drop d s (C10_forget_safe b0 d s hd).1 (DrainInv.rs_le_cap hd) (DrainInv.re_le_cap hd)]; exact C09_drop b0 d s hd hf
+
+maybe theorem C01_drain_src (b0 : CB) (d : Drain) (s : Sys) (hd : DrainInv b0 d s) (hf : s.faults.drop = 0) :
+    ∃ b', (Gen.Drain_drop d s).1 = .ok () ∧ (Gen.Drain_drop d s).2.buf = b' ∧ Inv b' ∧
+      abs b' = (Spec.drain (abs b0) d.rs d.re).2 ∧ b'.cap = b0.cap := by
+  rw [tie_drain_drop d s (C10_forget_safe b0 d s hd).1 (DrainInv.rs_le_cap hd) (DrainInv.re_le_cap hd)]; exact C01_drain b0 d s hd hf
+
+maybe theorem C05_drain_drop_src (b0 : CB) (d : Drain) (s : Sys) (hd : DrainInv b0 d s)
+    (hk : ¬ (s.kind = .byte ∨ s.kind = .plain))
+    (hfire : 1 ≤ s.faults.drop ∧ s.faults.drop ≤ d.ie - d.is) :
+    ∃ s', Gen.Drain_drop d s = (.error (.user "drop"), s') ∧ s'.buf = s.buf ∧
+      s'.log = dropEvents s.kind (((abs b0).drop d.is).take (d.ie - d.is)) ++ s.log := by
+  rw [tie_drain_drop d s (C10_forget_safe b0 d s hd).1 (DrainInv.rs_le_cap hd) (DrainInv.re_le_cap hd)]; exact C05_drain_drop b0 d s hd hk hfire
+
+maybe theorem C20_drain_src (b0 : CB) (d : Drain) (s : Sys) (hd : DrainInv b0 d s) (hf : s.faults.drop = 0) :
+    ∃ b', (Gen.Drain_drop d s).2.buf = b' ∧ b'.start = b0.start ∧
+      (∀ i, i < d.rs → b'.items (phys b0.start b0.cap i) = b0.items (phys b0.start b0.cap i)) := by
+  rw [tie_drain_drop d s (C10_forget_safe b0 d s hd).1 (DrainInv.rs_le_cap hd) (DrainInv.re_le_cap hd)]; exact C20_drain b0 d s hd hf
 
 maybe /-- **leak safety, on the translated constructor**: in the state `Drain::over_range` leaves behind — the
 state a forgotten drain leaves for good — the buffer satisfies the invariant and is empty -/
